@@ -587,7 +587,7 @@ impl Scenario for BigramScenario {
     fn describe(&self) -> ScenarioInfo {
         ScenarioInfo {
             level: "exploration",
-            rule: "one seeded run = a seeded bigram model (K in 1..20 templates with extra weight on 1,2,5,7,8,9,15,16,17,19; ragged rows, strings shared across positions and sides, quoted features, dense/sparse cost tables, BOS/EOS lines, unused strings; 2-7 ids per side) compiled (a) with the raw connector, (b) with the dual connector under the ascending trial order and 2-8 seeded trial orders of the greedy template split (hook H5), (c) as a matrix.def materialised from the harness-side defining sums. For every id pair incl. id 0: raw == defining sum; every dual == raw; all three tokenize the probes identically. Added later: aligned blocks of empty columns; 1 world in 5 with per-template costs of thousands (signs alternating by blocks of eight positions, single entries beyond 16 bits), 1 in 60 with a side that has the BOS/EOS id only, 1 in 1500 with 65535 rows on one side; every dual dictionary is compared pair by pair with an executable reference model (own greedy split under the same trial order; pre-summed part clamped once to 16 bits); 1 run in 3 also remaps a raw and a dual dictionary with seeded permutations and compares every pair through the permutation; the hash order of every map in vibrato is seeded per run (hash-order seam). distinct_nontrivial = distinct plan hashes of runs with >= 1 comparison",
+            rule: "one seeded run = a seeded bigram model (K in 1..20 templates with extra weight on 1,2,5,7,8,9,15,16,17,19; ragged rows, strings shared across positions and sides, quoted features, dense/sparse cost tables, BOS/EOS lines, unused strings; 2-7 ids per side) compiled (a) with the raw connector, (b) with the dual connector under the ascending trial order and 2-8 seeded trial orders of the greedy template split (hook H5), (c) as a matrix.def materialised from the harness-side defining sums. For every id pair incl. id 0: raw == defining sum; every dual == raw; all three tokenize the probes identically. Added later: aligned blocks of empty columns; 1 world in 5 with per-template costs of thousands (signs alternating by blocks of eight positions, single entries beyond 16 bits), 1 in 60 with a side that has the BOS/EOS id only, 1 in 1500 with 65535 rows on one side; every dual dictionary is compared pair by pair with an executable reference model (own greedy split under the same trial order; pre-summed part clamped once to 16 bits); 1 run in 3 also remaps a raw and a dual dictionary with seeded permutations and compares every pair through the permutation; the hash order of every map in vibrato is seeded per run (hash-order seam). Round 5: single cost entries exactly at the ends of the 16-bit range; the dual oracle accepts any ONE split of the template positions that explains every id pair (the split rule is the implementation's choice). distinct_nontrivial = distinct plan hashes of runs with >= 1 comparison",
             assumptions: vec![
                 "bigram.cost contains no literal '*' feature and no '/'-only line (BOSxEOS padding lanes would otherwise need interpretation); costs are within [-300,300] so the pre-summed part fits 16 bits",
                 "the for-all-models quantifier of the statement is sampled as workload; what the simulation decides is independence from the hidden template split (and, thorough tier, from the build)",
